@@ -66,6 +66,14 @@ class Ctx:
         self.dist[key] = self.dist.get(key, 0) + n
 
 
+def _brief(kind, r):
+    """one line about a further violating case, for the replay file of the first one"""
+    c = r.get("case")
+    c = c if isinstance(c, dict) else {}
+    return {"kind": kind, "failure": c.get("_failure") or c.get("_problems"), "verdict": r.get("verdict"),
+            "mutation": c.get("mutation"), "asset": c.get("asset")}
+
+
 def evaluate(prop, ctx, cases):
     """Run impl + Coq on cases. Returns list of dict(case,out,verdict) where verdict=(corr,spec,kf)|None."""
     outs = prop.execute(ctx, cases)
@@ -220,11 +228,7 @@ def run_check(prop, tier, seed, replay=None):
                                                          "impl": r["out"], "verdict": r["verdict"],
                                                          "n_violations": len(violations),
                                                          "other_failures": [
-                                                             {"kind": k2, "failure": r2["case"].get("_failure") or
-                                                              r2["case"].get("_problems"), "verdict": r2["verdict"],
-                                                              "mutation": r2["case"].get("mutation"),
-                                                              "asset": r2["case"].get("asset")}
-                                                             for k2, r2 in violations[1:60]]})
+                                                             _brief(k2, r2) for k2, r2 in violations[1:60]]})
         lines.append("VIOLATION property=%s replay=%s" % (pid, path))
         rc = 1
     elif broken or corr_broken_cases:
